@@ -73,7 +73,11 @@ class Result(object):
 
 
 def digest(obj):
-    s = json.dumps(obj, sort_keys=True, default=repr)
+    from .thr import canon_ids
+
+    # uuid-like strings are renamed by first occurrence: an outcome may mention task ids, and which
+    # unique ids the code draws is not part of any property
+    s = canon_ids(json.dumps(obj, sort_keys=True, default=repr))
     return hashlib.blake2b(s.encode("utf-8", "surrogatepass"), digest_size=8).hexdigest()
 
 
